@@ -14,7 +14,7 @@ int main(int argc, char ** argv) {
         const std::string kind = c.next();
         if (kind == "gr" || kind == "mgr" || kind == "epg") c09_greedy(kind, c, o);
         else if (kind == "lrp" || kind == "epl") c09_lrp(kind, c, o);
-        else if (kind == "smx" || kind == "smu") c09_softmax(kind, c, o);
+        else if (kind == "smx" || kind == "smu" || kind == "msm") c09_softmax(kind, c, o);
         else if (kind == "ts" || kind == "tsn" || kind == "tt" || kind == "ttn" || kind == "t3c") c09_thompson(kind, c, o);
         else if (kind == "wolf" || kind == "pga" || kind == "mpol") c09_grad(kind, c, o);
         else if (kind == "rnd" || kind == "sr" || kind == "esrl") c09_misc(kind, c, o);
